@@ -151,6 +151,14 @@ def run(chk, S: Session):
     c03.finalize_rules(chk, S, chk.rule("R-C05-5a", "finalize typing (auxiliary to R-C05-5; decided in C03 as R-C03-1)", floor=0), r5)
 
 
+    # "checkpoints separated by less than eps" (zero included): the interpolating transition must not have length zero (zone facts of C06's bracket rule,
+    # called directly: C06 borrows from this check)
+    from . import c06
+
+    r6 = chk.rule("R-C05-6", "checkpoints closer than eps, equal ones included: the transition from the left bracket to the checkpoint has positive length on every path that interpolates "
+                  "beyond the checkpoint (the preconditioner holds dt^-k)", floor=9)
+    c06.zero_length_interpolation_rules(S, r6)
+
 def terminal_rules(chk, S, r3):
     it = S.interp()
     captured = {}
